@@ -325,7 +325,7 @@ pub fn dump_hash(l: &[(Vec<u8>, Vec<u8>)]) -> u64 {
 
 // ---------------------------------------------------------------------------------- executor
 
-fn to_bounds<'a, F: Fam>(lo: &'a Bound<Vec<u8>>, hi: &'a Bound<Vec<u8>>) -> (Bound<<F::K as Value>::SelfType<'a>>, Bound<<F::K as Value>::SelfType<'a>>) {
+pub fn to_bounds<'a, F: Fam>(lo: &'a Bound<Vec<u8>>, hi: &'a Bound<Vec<u8>>) -> (Bound<<F::K as Value>::SelfType<'a>>, Bound<<F::K as Value>::SelfType<'a>>) {
     let f = |b: &'a Bound<Vec<u8>>| match b {
         Bound::Unbounded => Bound::Unbounded,
         Bound::Included(k) => Bound::Included(F::key(k)),
@@ -341,7 +341,7 @@ fn kbytes<F: Fam>(k: <F::K as Value>::SelfType<'_>) -> Vec<u8> {
 
 type Tbl<'t, F> = redb::Table<'t, <F as Fam>::K, &'static [u8]>;
 
-fn err_tag<E: std::fmt::Debug>(e: E) -> String {
+pub fn err_tag<E: std::fmt::Debug>(e: E) -> String {
     let s = format!("{e:?}");
     format!("err:{}", s.split(|c: char| !c.is_alphanumeric()).next().unwrap_or("?"))
 }
